@@ -175,6 +175,9 @@ func (d *designator) eval(n *xp10.Node, base []mock.Elem) (xp10.Value, error) {
 			}
 		}
 		d.events = append(d.events, event{"Navigate", root, id, role}, event{"GetValue", 0, id, role})
+		if len(node) > 0 && tree.EmptyNames[node[len(node)-1].Name] {
+			return xp10.Str(""), nil
+		}
 		return xp10.Str(id), nil
 	}
 	if n.Op == "func" && (n.Val == "current" || n.Val == "deref") {
@@ -250,7 +253,11 @@ func pathShape(src string) string {
 	return out
 }
 
-var tree = mock.NewTree()
+var tree = func() *mock.Tree {
+	t := mock.NewTree()
+	t.EmptyNames = map[string]bool{"e": true} // a leaf named e has the empty string as value
+	return t
+}()
 
 func embedding(src string) string {
 	switch {
@@ -355,7 +362,8 @@ func check(src string, ci int, ss *session) (vs []engine.Violation, outcome stri
 
 // ---------------------------------------------------------------- generator
 
-var operandSrc = []string{"'v'", "7", "concat('x', 'y')", "/x/y", "current()/../x", "../x", "../../x/y"}
+// operands with the empty string as value: the empty literal, a function result, paths to the leaf e
+var operandSrc = []string{"'v'", "7", "concat('x', 'y')", "/x/y", "current()/../x", "../x", "../../x/y", "''", "substring-after('ab', 'c')", "../e", "/x/e", "current()/../e"}
 var keyNames = []string{"k", "j", "p:k"}
 
 func stepForms(maxPreds int, full bool) []string {
@@ -368,7 +376,7 @@ func stepForms(maxPreds int, full bool) []string {
 			}
 		}
 		if nm == "a" || full {
-			ops2 := []string{"'v'", "current()/../x", "../x"}
+			ops2 := []string{"'v'", "current()/../x", "../x", "''", "../e"}
 			if maxPreds >= 2 {
 				ops2 = operandSrc
 			}
